@@ -146,6 +146,10 @@ class World:
             ops.append([op, k, v])
             fired0 = fail['fired']
             try:
+                pre_div = m.ctrl.get(k) != getattr(m, 'm_' + k)     # set apart before this operation (listed mechanisms)?
+            except Exception:
+                pre_div = True
+            try:
                 if op in ('fail_read', 'fail_write'):
                     fail[op[5:]].add(k)
                     continue
@@ -177,7 +181,7 @@ class World:
                     # the injected driver fault surfaced as an error of this operation
                     r.count('struct_driver_faults_surfaced')
                     suspended = True
-                    if not self.readback_failed_consistently(m, [k], op, combined, fail, layout, ops, inherited, readonly):
+                    if not pre_div and not self.readback_failed_consistently(m, [k], op, combined, fail, layout, ops, inherited, readonly):
                         break
                     continue
                 r.violation(f'C18/struct/{layout}/raises/{op}', f'{op} raised {type(e).__name__}: {e}'[:200],
@@ -186,7 +190,7 @@ class World:
             if fail['fired'] > fired0:
                 r.count('struct_driver_faults_swallowed')    # the operation caught the fault itself (error stored as read error)
                 suspended = True
-                if not self.readback_failed_consistently(m, [k], op, combined, fail, layout, ops, inherited, readonly):
+                if not pre_div and not self.readback_failed_consistently(m, [k], op, combined, fail, layout, ops, inherited, readonly):
                     break
                 continue
             if suspended:
